@@ -223,7 +223,7 @@ pub fn generate(thorough: bool, seed: u64, em: &mut Emitter) {
     }
     // two keys of one mapping that are the same string once the tag is removed: the document without its tags is not a
     // valid document, so the tagged one is refused as well
-    for doc in ["!sd a: 1\na: 2\n", "a: 2\n!sd a: 1\n", "x:\n  !sd a: {b: 1}\n  a: 2\n", "!sd a: {!sd b: 1}\na: 2\n", "l:\n  - !sd k: 1\n    k: 2\n"] {
+    for doc in ["!sd \"1\": b\n1: a\n", "1:\n  !sd c: x\n\"1\":\n  d: y\n", "true: a\n!sd \"true\": b\n", "x:\n  !sd null: 1\n  \"null\": 2\n", "!sd a: 1\na: 2\n", "a: 2\n!sd a: 1\n", "x:\n  !sd a: {b: 1}\n  a: 2\n", "!sd a: {!sd b: 1}\na: 2\n", "l:\n  - !sd k: 1\n    k: 2\n"] {
         em.case("yaml", json!({"doc": doc, "claims": Value::Null, "paths": [], "expect_ok": "reject", "nontrivial": true, "tag": "keys_collide_after_tag_removal"}));
     }
 }
